@@ -33,6 +33,7 @@ type Solver struct {
 	Errors  int // number of "(error" lines seen: any makes the affected query inconclusive
 	LastErr string
 	Trace   io.Writer
+	HardMs  int // a check-sat that has not answered after this long gets the process killed (0 = never)
 }
 
 // Start launches bin ("z3", "z3-new" or "cvc5") in incremental mode.
@@ -63,7 +64,7 @@ func StartLogic(bin string, timeoutMs int, logic string) (*Solver, error) {
 	if err := cmd.Start(); err != nil {
 		return nil, err
 	}
-	s := &Solver{Bin: bin, cmd: cmd, in: in, w: bufio.NewWriterSize(in, 1<<16), out: bufio.NewReaderSize(out, 1<<16)}
+	s := &Solver{Bin: bin, cmd: cmd, in: in, w: bufio.NewWriterSize(in, 1<<16), out: bufio.NewReaderSize(out, 1<<16), HardMs: timeoutMs + timeoutMs/2 + 10000}
 	if tf := os.Getenv("VF_SMT_TRACE"); tf != "" {
 		f, _ := os.Create(fmt.Sprintf("%s.%d", tf, cmd.Process.Pid))
 		s.Trace = f
@@ -117,6 +118,12 @@ func (s *Solver) Check() Result {
 	s.Queries++
 	res := Unknown
 	sawErr := false
+	if s.HardMs > 0 && s.cmd != nil && s.cmd.Process != nil {
+		// the solver's own time limit is a soft one; do not wait for ever
+		proc := s.cmd.Process
+		timer := time.AfterFunc(time.Duration(s.HardMs)*time.Millisecond, func() { proc.Kill() })
+		defer timer.Stop()
+	}
 	for {
 		line, err := s.out.ReadString('\n')
 		if err != nil {
